@@ -230,7 +230,7 @@ class CFunc:
                 return ("sym", rd.get("name"))
             return ("var", rd.get("name"))
         if k == "ArraySubscriptExpr":
-            return ("idx", self.expr(n["inner"][0], pre, post), self.expr(n["inner"][1], pre, post))
+            return self._subscript(n, pre, post)
         if k == "BinaryOperator":
             op = n["opcode"]
             if op in ("&&", "||"):
@@ -260,8 +260,8 @@ class CFunc:
                 return ("not", self.expr(n["inner"][0], pre, post))
             if op in ("++", "--"):
                 lv = self.lvalue(n["inner"][0], pre, post)
-                if lv[0] != "var":
-                    raise Unsupported("++/-- on something that is not a variable")
+                if lv[0] != "var" and not (lv[0] == "idx" and lv[1][0] == "var" and lv[2] == ZERO):
+                    raise Unsupported("++/-- on something that is neither a variable nor `*p`")      # (*p)++ : a counter passed by reference
                 upd = ("set", lv, ("bin", "+" if op == "++" else "-", lv, ONE))
                 if n.get("isPostfix"):
                     if any(s[1] == lv for s in post if s[0] == "set"):
@@ -306,10 +306,22 @@ class CFunc:
         if k == "DeclRefExpr":
             return ("var", n["referencedDecl"]["name"])
         if k == "ArraySubscriptExpr":
-            return ("idx", self.expr(n["inner"][0], pre, post), self.expr(n["inner"][1], pre, post))
+            return self._subscript(n, pre, post)
         if k == "UnaryOperator" and n.get("opcode") == "*":
             return ("idx", self.expr(n["inner"][0], pre, post), ZERO)
         raise Unsupported(f"C lvalue {k}")
+
+    def _subscript(self, n, pre, post):
+        """a[i]; and a[r][c] through a pointer to rows of N elements (`double (*rf)[3]`): the element N*r + c of the flat data, as C defines it"""
+        base = self._strip(n["inner"][0])
+        if base.get("kind") == "ArraySubscriptExpr":
+            m = re.search(r"\[(\d+)\]$", ((base.get("type") or {}).get("qualType") or "").strip())
+            if m:
+                arr = self.expr(base["inner"][0], pre, post)
+                row = self.expr(base["inner"][1], pre, post)
+                col = self.expr(n["inner"][1], pre, post)
+                return ("idx", arr, ("bin", "+", ("bin", "*", ("num", Fraction(int(m.group(1)))), row), col))
+        return ("idx", self.expr(n["inner"][0], pre, post), self.expr(n["inner"][1], pre, post))
 
     # ---- statements
     def block(self, n):
@@ -383,28 +395,21 @@ class CFunc:
         if k == "ForStmt":
             init, _cv, cond, inc, body = n["inner"]
             out = self.stmt(init) if init.get("kind") else []
-            c = None
+            c, test = None, []
             if cond.get("kind"):
-                pre, post = [], []
-                c = self.expr(cond, pre, post)
-                if pre or post:
-                    raise Unsupported("side effect in a loop condition")
+                c, test = self._loop_test(cond)
             step = self._exprstmt(inc) if inc.get("kind") else []
-            return out + [("loop", c, self.block(body), step)]
+            return out + [("loop", c, test + self.block(body), step)]
         if k == "WhileStmt":
             cond, body = n["inner"][-2], n["inner"][-1]
-            pre, post = [], []
-            c = self.expr(cond, pre, post)
-            if pre or post:
-                raise Unsupported("side effect in a loop condition")
-            return [("loop", c, self.block(body), [])]
+            c, test = self._loop_test(cond)
+            return [("loop", c, test + self.block(body), [])]
         if k == "DoStmt":
             body, cond = n["inner"][0], n["inner"][1]
-            pre, post = [], []
-            c = self.expr(cond, pre, post)
-            if pre or post:
-                raise Unsupported("side effect in a loop condition")
-            return [("loop", None, self.block(body), [("if", c, [], [("break",)])])]
+            c, test = self._loop_test(cond)
+            if c is not None:
+                test = [("if", c, [], [("break",)])]
+            return [("loop", None, self.block(body), test)]
         if k == "IfStmt":
             inner = n["inner"]
             pre, post = [], []
@@ -429,9 +434,19 @@ class CFunc:
             for c in n.get("inner", []) or []:
                 out.extend(self.stmt(c))
             return out
-        if k in ("CallExpr", "ParenExpr", "CStyleCastExpr", "ImplicitCastExpr"):
+        if k in ("CallExpr", "ParenExpr", "CStyleCastExpr", "ImplicitCastExpr") or (k == "BinaryOperator" and n.get("opcode") == ","):
             return self._exprstmt(n)
         raise Unsupported(f"C statement kind {k}")
+
+    def _loop_test(self, cond):
+        """loop condition -> (pure condition | None, statements that open the loop body).  A condition with side effects (`while (++p != end)`,
+        `while (n-- > 0)`) is evaluated at the top of an unconditional loop: pre-effects, the test, post-effects on both outcomes, `break` when
+        it fails -- `continue` still reaches it through the loop's step, exactly as in C"""
+        pre, post = [], []
+        c = self.expr(cond, pre, post)
+        if not pre and not post:
+            return c, []
+        return None, pre + [("if", c, list(post), list(post) + [("break",)])]
 
     def _exprstmt(self, n):
         s = self._strip(n)
@@ -578,7 +593,12 @@ class PyFunc:
             if d is not None:
                 if d == "abs" and len(args) == 1 and not kw:
                     return ("abs", args[0])
+                if isinstance(n.func, ast.Attribute) and d.split(".")[0] in self.locals:
+                    # a method of a local value (`peaks.astype(float)`): the object is the first argument
+                    return ("call", "method:" + n.func.attr, [self.expr(n.func.value)] + args, kw)
                 return ("call", d, args, kw)
+            if isinstance(n.func, ast.Attribute):
+                return ("call", "method:" + n.func.attr, [self.expr(n.func.value)] + args, kw)       # method of a computed value: `f(x).astype(float)`
             return ("callv", self.expr(n.func), args, kw)
         if isinstance(n, ast.Attribute):
             d = _dotted(n)
@@ -612,6 +632,70 @@ class PyFunc:
             return [("if", e[1], self._return(e[2]), self._return(e[3]))]
         return [("return", e)]
 
+    @staticmethod
+    def _const_slice(sl):
+        """(lo, hi) of a slice with literal non-negative bounds and no step, else None"""
+        if not isinstance(sl, ast.Slice) or sl.step is not None or sl.upper is None:
+            return None
+        lo = 0 if sl.lower is None else sl.lower.value if isinstance(sl.lower, ast.Constant) and isinstance(sl.lower.value, int) else None
+        hi = sl.upper.value if isinstance(sl.upper, ast.Constant) and isinstance(sl.upper.value, int) else None
+        if lo is None or hi is None or isinstance(lo, bool) or isinstance(hi, bool) or not 0 <= lo < hi <= lo + 16:
+            return None
+        return lo, hi
+
+    def _block_store(self, tg, val):
+        """`a[1:3]` style block moves and whole-row stores, element by element with every right-hand side read first (numpy's semantics, also
+        when the two blocks overlap):  a[l:h] = b[l2:h2]  (literal bounds, equal lengths);  t[r] = (x, y, z)  /  t[r, :] = (x, y, z)"""
+        if not isinstance(tg, ast.Subscript):
+            return None
+        ts_ = self._const_slice(tg.slice)
+        if ts_ is not None and isinstance(val, ast.Subscript) and self._const_slice(val.slice) is not None:
+            vs = self._const_slice(val.slice)
+            if ts_[1] - ts_[0] != vs[1] - vs[0]:
+                raise Unsupported(f"block move between slices of different lengths: {ast.unparse(tg)} = {ast.unparse(val)}")
+            dst, src = self.expr(tg.value), self.expr(val.value)
+            tmps = []
+            out = []
+            for i in range(vs[0], vs[1]):
+                t = self._fresh()
+                out.append(("set", t, ("idx", src, ("num", Fraction(i)))))
+                tmps.append(t)
+            for i, t in zip(range(ts_[0], ts_[1]), tmps):
+                out.append(("set", ("idx", dst, ("num", Fraction(i))), t))
+            return out
+        if isinstance(val, (ast.Tuple, ast.List)) and len(val.elts) >= 2:
+            sl = tg.slice
+            row = None
+            if isinstance(sl, ast.Tuple) and len(sl.elts) == 2 and isinstance(sl.elts[1], ast.Slice) \
+                    and sl.elts[1].lower is None and sl.elts[1].upper is None and sl.elts[1].step is None and not isinstance(sl.elts[0], ast.Slice):
+                row = sl.elts[0]
+            elif not isinstance(sl, (ast.Tuple, ast.Slice)):
+                row = sl
+            if row is None:
+                return None
+            base, r = self.expr(tg.value), self.expr(row)
+            out, tmps = [], []
+            for e in val.elts:
+                t = self._fresh()
+                out.append(("set", t, self.expr(e)))
+                tmps.append(t)
+            for c, t in enumerate(tmps):
+                out.append(("set", ("idx2", base, r, ("num", Fraction(c))), t))
+            return out
+        return None
+
+    def _seq_iter(self, s):
+        """(sequence expr, enumerate start | None, index var | None, element var) of `for x in name` / `for i, x in enumerate(name[, start])`"""
+        it, tg = s.iter, s.target
+        if isinstance(it, ast.Name) and isinstance(tg, ast.Name):
+            return ("var", it.id), None, None, ("var", tg.id)
+        if isinstance(it, ast.Call) and isinstance(it.func, ast.Name) and it.func.id == "enumerate" and "enumerate" not in self.locals \
+                and 1 <= len(it.args) <= 2 and isinstance(it.args[0], ast.Name) and isinstance(tg, (ast.Tuple, ast.List)) and len(tg.elts) == 2 \
+                and all(isinstance(e, ast.Name) for e in tg.elts) and all(k.arg == "start" for k in it.keywords) and len(it.args) + len(it.keywords) <= 2:
+            st = it.args[1] if len(it.args) == 2 else (it.keywords[0].value if it.keywords else None)
+            return ("var", it.args[0].id), (self.expr(st) if st is not None else None), ("var", tg.elts[0].id), ("var", tg.elts[1].id)
+        return None
+
     def _fresh(self):
         self._tmp += 1
         return ("var", f"%t{self._tmp}")
@@ -637,6 +721,8 @@ class PyFunc:
             if s.value is None:
                 return []
             return self._assign(self.lvalue(s.target), self.expr(s.value))
+        if isinstance(s, ast.Assign) and len(s.targets) == 1 and self._block_store(s.targets[0], s.value) is not None:
+            return self._block_store(s.targets[0], s.value)
         if isinstance(s, ast.Assign):
             out = []
             val = self.expr(s.value)
@@ -667,6 +753,22 @@ class PyFunc:
                 raise Unsupported("py augmented operator")
             lv = self.lvalue(s.target)
             return [("set", lv, ("bin", ops[type(s.op)], lv, self.expr(s.value)))]
+        if isinstance(s, ast.For) and not s.orelse and self._seq_iter(s) is not None:
+            # `for x in seq` / `for i, x in enumerate(seq[, start])` over a local sequence: a hidden position counter walks 0 .. len(seq) - 1
+            seq, start, ivar, xvar = self._seq_iter(s)
+            pos = self._fresh()
+            n = ("call", "len", [seq], {})
+            head = [("set", xvar, ("idx", seq, pos))]
+            if ivar is not None:
+                head.insert(0, ("set", ivar, pos if start is None else ("bin", "+", pos, start)))
+            body = self.block(s.body)
+            assigned = assigned_vars(body)
+            if pos[1] in assigned or (expr_vars(seq) & assigned) or (start is not None and expr_vars(start) & assigned):
+                raise Unsupported("py for loop whose body assigns the sequence it iterates over")
+            out = [("set", pos, ZERO), ("loop", ("cmp", "<", pos, n), head + body, [("set", pos, ("bin", "+", pos, ONE))]), ("havoc", xvar[1])]
+            if ivar is not None:
+                out.append(("havoc", ivar[1]))
+            return out
         if isinstance(s, ast.For):
             it = s.iter
             if not (isinstance(it, ast.Call) and isinstance(it.func, ast.Name) and it.func.id == "range" and not it.keywords
@@ -674,7 +776,7 @@ class PyFunc:
                 raise Unsupported("py for loop is not `for v in range(...)`")
             if len(it.args) == 1:
                 lo, hi = ZERO, self.expr(it.args[0])
-            elif len(it.args) == 2:
+            elif len(it.args) == 2 or (len(it.args) == 3 and isinstance(it.args[2], ast.Constant) and it.args[2].value == 1):
                 lo, hi = self.expr(it.args[0]), self.expr(it.args[1])
             else:
                 raise Unsupported("range with a step")
@@ -722,6 +824,21 @@ class PyUnit:
                 if isinstance(st.value, ast.Constant) or (isinstance(st.value, (ast.Tuple, ast.List)) and all(isinstance(e, ast.Constant) for e in st.value.elts)):
                     val[st.targets[0].id] = st.value
         self.consts = {k: v for k, v in val.items() if count.get(k) == 1 and k not in self.defs}
+        # every name the module binds at any level outside its functions, plus the builtins: what a global lookup can find
+        import builtins
+        self.module_names = set(dir(builtins)) | set(self.defs)
+
+        def bound(stmts):
+            for st in stmts:
+                if isinstance(st, (ast.FunctionDef, ast.AsyncFunctionDef, ast.ClassDef)):
+                    self.module_names.add(st.name)
+                    continue
+                for x in ast.walk(st):
+                    if isinstance(x, (ast.Import, ast.ImportFrom)):
+                        self.module_names.update((al.asname or al.name).split(".")[0] for al in x.names)
+                    elif isinstance(x, ast.Name) and isinstance(x.ctx, ast.Store):
+                        self.module_names.add(x.id)
+        bound(tree.body)
 
     def func(self, name, required=True):
         if name not in self.funcs:
@@ -774,6 +891,20 @@ def walk_ir(stmts):
 
 def assigned_vars(stmts):
     out = set()
+
+    def addr_taken(e):
+        # `&v` handed to a call: the callee may assign v (a counter or cursor passed by reference)
+        if isinstance(e, tuple):
+            if len(e) == 2 and e[0] == "addr" and isinstance(e[1], tuple) and e[1][:1] == ("var",):
+                out.add(e[1][1])
+            for x in e:
+                addr_taken(x)
+        elif isinstance(e, list):
+            for x in e:
+                addr_taken(x)
+        elif isinstance(e, dict):
+            for x in e.values():
+                addr_taken(x)
     for s in walk_ir(stmts):
         if s[0] == "set" and s[1][0] == "var":
             out.add(s[1][1])
@@ -781,6 +912,10 @@ def assigned_vars(stmts):
             out |= {lv[1] for lv in s[1] if lv[0] == "var"}
         elif s[0] == "havoc":
             out.add(s[1])
+        if s[0] in ("set", "expr", "return", "unpack"):
+            addr_taken(s[1:])
+        elif s[0] in ("if", "loop") and s[1] is not None:
+            addr_taken(s[1])
     return out
 
 
